@@ -394,9 +394,8 @@ func (f *Frame) callContract(in ssa.Instruction, ct *Contract, callee *ssa.Funct
 			nv := f.specTerm(sc.Expr, envT)
 			prev := e.getHeap(tmp, "ghost_"+sc.Ghost, sortS)
 			if sc.Key != nil {
-				oldEnv := *envT
-				oldEnv.st = old
-				nv.T = fmt.Sprintf("(store %s %s %s)", prev, f.specTerm(sc.Key, &oldEnv).T, nv.T)
+				// the key is evaluated in the state at return (it may name a result); ghosts still have their earlier values
+				nv.T = fmt.Sprintf("(store %s %s %s)", prev, f.specTerm(sc.Key, envT).T, nv.T)
 			}
 			val := nv.T
 			if sc.Cond != nil {
